@@ -176,6 +176,11 @@ for _lead in (b"\xc3", b"\xe5\xad", b"\xe5", b"\xf0\x9f\x98", b"\xf0\x9f", b"\xf
     for _next in (b"A", b"\x1b[A", b"\xc3\xa9", b"\xe5\xad\x97", b"\x1b", b"\r", b"\x1b[<0;1;1M", b"\xff"):
         GARBAGE.append(_lead + _next)
 
+# ESC typed in front of a complete report / sequence: the report keeps its meaning, the ESC stands alone (or becomes "meta")
+for _rep in (b"\x1b[3;7R", b"\x1b[24;80R", b"\x1b[M !!", b"\x1b[M#\x7f\x7f", b"\x1b[<0;3;2M", b"\x1b[<35;10;20m", b"\x1b[A", b"\x1bOP", b"\x1b[15~", b"a"):
+    GARBAGE.append(b"\x1b" + _rep)
+    GARBAGE.append(b"\x1b\x1b" + _rep)
+
 MC_CFG = """CONSTANTS MaxLen = {n} Mode = "{mode}" MidTimeouts = {mid}
 Alphabet = {alpha}
 SPECIFICATION Spec
